@@ -29,11 +29,13 @@ const (
 	bPanicSlice
 	bPanicMap
 	bPanicFunc
+	bPanicNilStringer // a value whose String method itself panics (nil *url.URL)
+	bPanicBadError    // an error whose Error method panics
 	bCount
 )
 
 var behavNames = []string{"pass", "Fail", "FailNow", "Error", "Errorf", "Fatal", "Fatalf", "Require", "panic(error)",
-	"panic(string)", "panic(struct)", "panic(nil)", "nil-map-write", "index-out-of-range", "helper-goroutine-Errorf", "panic([]string)", "panic(map)", "panic(func)"}
+	"panic(string)", "panic(struct)", "panic(nil)", "nil-map-write", "index-out-of-range", "helper-goroutine-Errorf", "panic([]string)", "panic(map)", "panic(func)", "panic(nil-Stringer)", "panic(error-whose-Error-panics)"}
 
 func behavFails(b int) bool { return b != bPass }
 
@@ -52,10 +54,11 @@ type CleanupPlan struct {
 }
 
 type IterPlan struct {
-	Behav    int           `json:"b,omitempty"`
-	SleepNs  int64         `json:"sleep,omitempty"` // body duration before the behaviour takes place
-	After    int64         `json:"after,omitempty"` // extra sleep after a non-stopping behaviour
-	Cleanups []CleanupPlan `json:"cleanups,omitempty"`
+	Behav        int           `json:"b,omitempty"`
+	SleepNs      int64         `json:"sleep,omitempty"`       // body duration before the behaviour takes place
+	After        int64         `json:"after,omitempty"`       // extra sleep after a non-stopping behaviour
+	LateHelperNs int64         `json:"late_helper,omitempty"` // a goroutine started by the body calls Errorf this long after the body returned
+	Cleanups     []CleanupPlan `json:"cleanups,omitempty"`
 	// CleanupsLate: register the cleanups after the sleep instead of at the start
 	CleanupsLate bool `json:"late,omitempty"`
 	// InTimeStage: the behaviour happens inside t.Time("stage", ...)
@@ -106,7 +109,11 @@ type H1Cfg struct {
 	Runs           int               `json:"runs,omitempty"`          // consecutive runs on one metrics instance
 	SameScenario   bool              `json:"same_scenario,omitempty"` // ... all of the same scenario name
 	Run2Plain      bool              `json:"run2_plain,omitempty"`    // runs after the first leave every limit at its default (flags omitted)
-	MemProfile     bool              `json:"memprofile,omitempty"`    // driver f1: pass --memprofile
+	C01LateCancel  bool              `json:"c01_late_cancel,omitempty"`
+	LateHelper     bool              `json:"late_helper_profile,omitempty"`
+	Flags1         map[string]string `json:"flags_first_run,omitempty"` // trigger flags of the first run only (later runs use Flags): nothing of them may survive
+	FilePathKind   string            `json:"file_path_kind,omitempty"`  // file mode: "dir" = the path names a directory, "missing" = nothing there
+	MemProfile     bool              `json:"memprofile,omitempty"`      // driver f1: pass --memprofile
 	C03Overload    bool              `json:"c03_overload,omitempty"`
 	Prog           ScenarioProg      `json:"prog"`
 	CancelAtNs     int64             `json:"cancel_at,omitempty"`   // after Do was called; <0 = cancel before Do
@@ -289,6 +296,11 @@ func (h1) Decode(raw json.RawMessage) (any, error) {
 // excluded from the replay-exactness accounting.
 // forRun returns the configuration in force for run i of the simulated process.
 func (c *H1Cfg) forRun(i int) *H1Cfg {
+	if i == 0 && c.Flags1 != nil {
+		cc := *c
+		cc.Flags, cc.TickNs, cc.TickRate = c.Flags1, 0, 0
+		return &cc
+	}
 	if i == 0 || !c.Run2Plain {
 		return c
 	}
@@ -339,7 +351,11 @@ func (h h1) Gen(prop, tier string, r *simrt.Rng) (any, simrt.Config) {
 		// runs longer than one progress period
 		c.MaxDurationNs = int64(simrt.Pick(r, 1100, 2100, 3200))*int64(time.Millisecond) + odd(r)
 		if thorough && r.Intn(5) == 0 {
-			c.MaxDurationNs = int64(simrt.Pick(r, 12, 65))*int64(time.Second) + odd(r)
+			c.MaxDurationNs = int64(simrt.Pick(r, 12, 65, 85))*int64(time.Second) + odd(r)
+		}
+		if r.Intn(40) == 0 {
+			c.MaxDurationNs = int64(simrt.Pick(r, 76, 85))*int64(time.Second) + odd(r)
+			c.C01LateCancel = true // interrupted after f1 moved to its slower progress schedule and reported once on it
 		}
 		c.Metrics = r.Intn(3) != 0
 		c.WaitTimeoutNs = 10*int64(time.Second) + odd(r)
@@ -485,6 +501,10 @@ func (h h1) Gen(prop, tier string, r *simrt.Rng) (any, simrt.Config) {
 			}
 		}
 	}
+	if c.C01LateCancel {
+		c.CancelAtStep, c.CancelAtSite = 0, ""
+		c.CancelAtNs = int64(simrt.Pick(r, 70, 70, 60)*int(time.Second)) + int64(200+r.Intn(4500))*int64(time.Millisecond) + 137
+	}
 
 	switch prop {
 	case "C01":
@@ -492,6 +512,10 @@ func (h h1) Gen(prop, tier string, r *simrt.Rng) (any, simrt.Config) {
 		c.Prog.SetupSleepNs = 0
 		for i := range c.Prog.Iter {
 			c.Prog.Iter[i].SleepNs = int64(simrt.Pick(r, 0, 100, 200, 500, 1000)) * int64(time.Millisecond)
+			if c.C01LateCancel && r.Intn(2) == 0 {
+				// still in flight when the first progress report after the interrupt is made
+				c.Prog.Iter[i].SleepNs = int64(simrt.Pick(r, 1700, 2600, 4100))*int64(time.Millisecond) + 13
+			}
 			c.Prog.Iter[i].Cleanups = nil
 		}
 		if c.Mode == "constant" {
@@ -594,6 +618,22 @@ func (h h1) Gen(prop, tier string, r *simrt.Rng) (any, simrt.Config) {
 		if r.Intn(3) == 0 {
 			c.MaxIterations = 1
 		}
+	case "C07":
+		if r.Intn(8) == 0 {
+			// a body leaves a helper goroutine behind that reports an error on the handle while the worker is idle
+			// (one worker, one request per 100 ms tick, bodies of 10 ms, the helper fires 20 ms after its body): the
+			// iteration that started it has passed, and the next one on that worker starts clean
+			c.Mode, c.Flags = "constant", map[string]string{"rate": "1/100ms", "distribution": "none"}
+			c.Concurrency, c.MaxIterations, c.Runs = 1, 0, 1
+			c.CancelAtNs, c.CancelAtStep, c.CancelAtSite = 0, 0, ""
+			c.MaxDurationNs = int64(2+r.Intn(6))*100*ms + 50*ms + 7
+			c.Prog = ScenarioProg{Iter: []IterPlan{{SleepNs: 10*ms + 3, LateHelperNs: 20*ms + 11}, {SleepNs: 5*ms + 1}}}
+			if r.Intn(2) == 0 {
+				c.Prog.Iter = c.Prog.Iter[:1]
+			}
+			c.SlowOutputNs = 0
+			c.LateHelper = true
+		}
 	case "C09", "C02":
 		c.Mode = "constant"
 		genTrigger(c, r, "constant", true)
@@ -603,6 +643,11 @@ func (h h1) Gen(prop, tier string, r *simrt.Rng) (any, simrt.Config) {
 		rate := int64(r.Intn(9))
 		c.Flags["rate"] = fmt.Sprintf("%d/%dms", rate, iv)
 		c.TickNs, c.TickRate = iv*int64(time.Millisecond), int(rate)
+		if r.Intn(5) == 0 {
+			// an earlier run of the same process used other trigger options (jitter, another rate): this run is still exact
+			c.Runs, c.SameScenario = 2, r.Intn(2) == 0
+			c.Flags1 = map[string]string{"rate": fmt.Sprintf("%d/%dms", 1+r.Intn(5), iv), "distribution": simrt.Pick(r, "none", "regular"), "jitter": simrt.Pick(r, "50", "90", "10")}
+		}
 	}
 	if c.Driver != "api" && prop == "C05" {
 		c.WaitTimeoutNs = 10*int64(time.Second) + odd(r) // the command's own completion timeout
@@ -676,6 +721,9 @@ func (h h1) Gen(prop, tier string, r *simrt.Rng) (any, simrt.Config) {
 	}
 	sc := genSimCfg(r, faults)
 	sc.MaxSimNs += c.StartOffsetNs
+	if c.LateHelper {
+		sc.StallPermille = 0
+	}
 	if c.Prog.Rendezvous > 0 && sc.StallMaxMs > 30 {
 		sc.StallMaxMs = 30
 	}
